@@ -213,6 +213,25 @@ def check_combo(plugins, baseline=None):
             rep["failed"].append("operations-module-written")
         if "NoReimports" in plugins and g.read("__init__.py").strip():
             rep["failed"].append("init-emptied")
+        if "NoReimports" in plugins:
+            # the plugin is added to a project that was generated without it before: the old re-exports must not survive
+            gx = _generate(())
+            import contextlib, io, os, tempfile, shutil     # noqa: E401
+            from ariadne_codegen.main import client as _client
+            tmp = tempfile.mkdtemp(prefix="pyvc_regen_")
+            try:
+                open(os.path.join(tmp, "schema.graphql"), "w").write(SCHEMA)
+                open(os.path.join(tmp, "queries.graphql"), "w").write(QUERIES)
+                cfg = dict(schema_path=os.path.join(tmp, "schema.graphql"), queries_path=os.path.join(tmp, "queries.graphql"), include_comments="none",
+                           target_package_path=gx.root, target_package_name=gx.pkg_name, scalars={"DateTime": {"type": "datetime.datetime"}},
+                           plugins=[PLUGINS[p] for p in plugins if p != CUSTOM_OPERATIONS])
+                with contextlib.redirect_stdout(io.StringIO()):
+                    _client({"tool": {"ariadne-codegen": cfg}})
+                if gx.read("__init__.py").strip():
+                    rep["failed"].append("init-emptied-when-regenerating-over-an-unplugged-package")
+            finally:
+                shutil.rmtree(tmp, ignore_errors=True)
+                gx.cleanup()
     except Exception as e:   # noqa
         rep["outcome"]["error"] = f"{type(e).__name__}: {str(e)[:300]}"
         rep["failed"].append("package-loads-and-runs")
